@@ -57,7 +57,8 @@ Plan gen_c17(uint64_t seed, int tier)
       else if (c < 87)
       {
         // a CsvWriter scope; the name is private to the issuing thread, cycles reuse it
-        ops.push_back(Op{OP_CSV, static_cast<int64_t>(cur_thread), r.range(0, 6)});
+        // (v2: 0 = file based writer, 1 = writer on a user-supplied shared sink, 2 = a sink-name history through the registry)
+        ops.push_back(Op{OP_CSV, static_cast<int64_t>(cur_thread), r.range(0, 6), r.pick<int64_t>({0, 0, 1, 2})});
       }
       else if (c < 93)
       {
@@ -409,7 +410,10 @@ void register_c17(std::vector<Profile>& v)
     "logging separated by barriers, after each of which one thread removes loggers (asynchronously or blocking) while their "
     "statements are still queued and re-creates them (same name after a blocking removal with different sinks, new name "
     "after an asynchronous one), drops user sink references, with other threads logging through untouched loggers and "
-    "backend stalls around the removal; distinct = distinct event hash; non-trivial = >=1 removal and >=1 preemption";
+    "backend stalls around the removal; several threads creating the same new logger at once; scoped CsvWriters (file based, and on a "
+    "user-supplied sink the user keeps referencing, re-created at once under the same name); a sink-name history through the registry "
+    "(reference kept past a blocking removal, dropped, name created again and looked up); distinct = distinct event hash; non-trivial = "
+    ">=1 removal and >=1 preemption";
   p.real_components = {"LoggerManager / SinkManager (registries, spinlocks)", "FrontendImpl::remove_logger / remove_logger_blocking / "
                        "create_or_get_logger / get_logger", "BackendWorker::_cleanup_invalidated_loggers", "queues, backend"};
   p.stub_components = {"recording sinks (record their own destruction)", "clock (virtual)", "scheduling (simulator)"};
